@@ -1,5 +1,5 @@
 INIT Init
-NEXT Next
+NEXT NextOnce
 INVARIANT NoEarlyWrite
 INVARIANT AttachLast
 INVARIANT FactoryLaw
